@@ -45,6 +45,7 @@ type Options struct {
 	CompressBlocks bool
 	MaxCached      int
 	MaxDataFile    uint64
+	KeepDataFiles  uint32 // BlockDBOpts.DataFilesKeep: older block data files are removed (0: keep all)
 	UTXOCallbacks  utxo.CallbackFunctions
 	BlockMinedCB   func(*btc.Block)
 	BlockUndoneCB  func(*btc.Block)
@@ -116,7 +117,7 @@ func Open(dir string, p *consensus.Params, o Options) (n *Node, err error) {
 	ext := &chain.NewChanOpts{UTXOCallbacks: o.UTXOCallbacks, BlockMinedCB: o.BlockMinedCB, BlockUndoneCB: o.BlockUndoneCB,
 		DoNotRescan: true, CompressUTXO: o.CompressUTXO, UTXOVolatileMode: o.Volatile}
 	n.Ch = chain.NewChainExt(dir, btc.NewUint256(p.GenesisHash[:]), false, ext,
-		&chain.BlockDBOpts{MaxCachedBlocks: o.MaxCached, MaxDataFileSize: o.MaxDataFile, CompressOnDisk: o.CompressBlocks})
+		&chain.BlockDBOpts{MaxCachedBlocks: o.MaxCached, MaxDataFileSize: o.MaxDataFile, DataFilesKeep: o.KeepDataFiles, CompressOnDisk: o.CompressBlocks})
 	ApplyParams(n.Ch, p)
 	if e := n.recoverBlocks(); e != nil {
 		return n, e
